@@ -326,6 +326,7 @@ func genCase(rng *rand.Rand, n int, seed int64, pf Profile) *CaseDesc {
 		fin.Refl = true
 	}
 	c.Provs = append(c.Provs, fin)
+	normalizeClusters(c)
 
 	// upward pass
 	pending := cloneInts(fin.Out)
@@ -516,5 +517,31 @@ func allEditCases(maxLen int, f func(*CaseDesc)) {
 			c.N = n
 			f(c)
 		}
+	}
+}
+
+// normalizeClusters makes the description say what buildCollection will build: adjacent providers with
+// the same non-zero number form one nject.Cluster; a run of one is not a cluster (nject ignores it);
+// two separate runs are two clusters and get different numbers.
+func normalizeClusters(c *CaseDesc) {
+	next := 1
+	for i := 0; i < len(c.Provs); {
+		if c.Provs[i].Cluster == 0 {
+			i++
+			continue
+		}
+		j := i
+		for j < len(c.Provs) && c.Provs[j].Cluster == c.Provs[i].Cluster {
+			j++
+		}
+		n := 0
+		if j-i > 1 {
+			n = next
+			next++
+		}
+		for k := i; k < j; k++ {
+			c.Provs[k].Cluster = n
+		}
+		i = j
 	}
 }
